@@ -84,8 +84,11 @@ reg('C12', 'harness.rounding', design_ref='6/C12',
     expect_labels=['C12:key', 'C12:originals', 'C12:tol-none', 'C12:standalone'])
 ARCH_STUBS = None
 def _arch_stubs():
-    from stubs import posixfs, sqlshim
-    return posixfs.STUBS + sqlshim.STUBS
+    try:
+        from stubs import posixfs, sqlshim
+        return posixfs.STUBS + sqlshim.STUBS
+    except ImportError:          # gen_manifest.py runs without the overlay venv
+        return ['model POSIX file system + re-bound os/posixpath/shutil/pox, lossless chunk serializers, sqlite codec (see stubs/)']
 reg('C03', 'harness.arch', design_ref='6/C03',
     bounds={'quick': 'archives dict, null, file(pickle), file(json), dir(pickle), dir(json), dir(fast), sqltable(:memory:), sqltable(db file): symbolic write prefix of <= 2 writes/deletes, then every operation of the 24-operation mapping alphabet with symbolic arguments (stores <= 3 entries); for persistent archives also 1 write + 2 operations (first from the 8 mutating ones); sibling archive isolation after every step; alias witnesses',
             'thorough': 'prefix <= 3 then 1 operation; 1 write then every pair of operations'},
